@@ -233,6 +233,18 @@ func (c *checker) scanOp(reg *updater.ResourceRegistry, absRoot string) place {
 	sb := c.sb
 	what := fmt.Sprintf("ResourceRegistry(storage=%s).ScanStorage(%q)", sb.rel(sb.root), strings.ReplaceAll(absRoot, sb.top, "<top>"))
 	where := locate(sb.root, absRoot)
+	if !filepath.IsAbs(absRoot) {
+		// a relative scan root: whether it is taken relative to the working directory (as the code does) or to the
+		// storage dir, it has to be refused when it escapes either way; otherwise both outcomes are fine
+		abs, aerr := filepath.Abs(absRoot)
+		if aerr != nil {
+			c.t.Fatalf("harness: %v", aerr)
+		}
+		where = locate(sb.root, filepath.Join(sb.root, absRoot))
+		if w := locate(sb.root, abs); where == escaping && w != escaping {
+			where = w
+		}
+	}
 	var err error
 	guard(c.t, what, func() { err = reg.ScanStorage(absRoot) })
 	if where == escaping && err == nil {
